@@ -294,11 +294,18 @@ Theorem C12_sum_dec_exceeds_precision_refuted :
 Proof. exact sum_dec_exceeds_precision_refuted. Qed.
 Print Assumptions C12_sum_dec_exceeds_precision_refuted.
 
-Theorem C12_avg_dec_refuted :
-  avg_dec_acc Debug [10 ^ 38 - 1; 10 ^ 38 - 1] = Panic /\
-  exists v, avg_dec_acc Release [10 ^ 38 - 1; 10 ^ 38 - 1] = Ok v /\ v < 0.
-Proof. exact avg_dec_refuted. Qed.
-Print Assumptions C12_avg_dec_refuted.
+(* AVG(decimal) (checked i128 accumulator since 2f7b0a8b9): exact total or an error, never another value,
+   in every build profile *)
+Theorem C12_avg_dec_exact_or_error : forall m xs,
+  avg_dec_acc m xs = Ok (fold_left Z.add xs 0) \/ avg_dec_acc m xs = Err.
+Proof. exact avg_dec_exact_or_error. Qed.
+Print Assumptions C12_avg_dec_exact_or_error.
+
+Theorem C12_avg_dec_overflow_is_error : forall m,
+  avg_dec_acc m [10 ^ 38 - 1; 10 ^ 38 - 1] = Err /\
+  avg_dec_acc m [10 ^ 38 - 1; 1] = Ok (10 ^ 38).
+Proof. exact avg_dec_overflow_is_error. Qed.
+Print Assumptions C12_avg_dec_overflow_is_error.
 
 (* AVG(bigint): the i128 accumulator never overflows (fewer than 2^64 rows) *)
 Theorem C12_avg_acc_no_overflow : forall xs, Forall (fun x => in_range Signed 64 x = true) xs ->
